@@ -187,6 +187,14 @@ func (t *TestTun) Read(b []byte) (int, error) {
 	return n, nil
 }
 
-func (t *TestTun) Queues(int) ([]tio.Queue, error) {
+func (t *TestTun) Queues(n int) ([]tio.Queue, error) {
+	if n > 1 && udp.TesterMultiReader.Load() {
+		// one queue per routine over the same channel-backed device
+		q := make([]tio.Queue, n)
+		for i := range q {
+			q[i] = tio.NewSingleQueue(t, udp.MTU)
+		}
+		return q, nil
+	}
 	return []tio.Queue{tio.NewSingleQueue(t, udp.MTU)}, nil
 }
